@@ -267,6 +267,9 @@ func scenarioC12(c *hlib.RunCtx) *hlib.Violation {
 		why := "valid"
 		var body []byte
 		kind := t.Biased(12, 1, 2)
+		if kind >= 10 {
+			kind = 8 + kind%2
+		}
 		switch kind {
 		case 1:
 			r.Week = []string{"", "2024-1-1", "2024-02-30", "../x", "2024-01-01/../../x", "2024-01-01T00:00:00Z", "20240101", "2024-13-01", "week"}[t.Draw(9)]
@@ -315,6 +318,29 @@ func scenarioC12(c *hlib.RunCtx) *hlib.Violation {
 			wantValid, why = false, "wrong shape "+string(body)
 			if string(body) == "null" {
 				wantValid, why = false, "null" // decodes to the zero report: week invalid
+			}
+		case 8, 9: // a name that is approved for one program, carried by another program of the same report
+			if pa, pb, name, isStack := crossProgramName(t, cfg.Ref); pa != nil {
+				r.Programs = nil
+				mk := func(cp *refcfg.Program) *progRep {
+					return &progRep{Program: cp.Name, Version: cp.Versions[0], GoVersion: cfg.Ref.GoVersion[0], GOOS: cfg.Ref.GOOS[0], GOARCH: cfg.Ref.GOARCH[0],
+						Counters: map[string]int64{}, Stacks: map[string]int64{}}
+				}
+				a, b := mk(pa), mk(pb)
+				if isStack {
+					a.Stacks[name+"\nmain.main:+1,+0x1"] = 2
+					b.Stacks[name+"\nmain.main:+1,+0x1"] = 3
+				} else {
+					a.Counters[name] = 2
+					b.Counters[name] = 3
+				}
+				r.Programs = []*progRep{a, b}
+				if kind == 9 {
+					r.Programs = []*progRep{b, a}
+				}
+				if ok, item := approved(r, cfg.Ref); !ok {
+					wantValid, why = false, "unapproved (listed for another program) "+item
+				}
 			}
 		case 7: // near-miss local names, unchanged otherwise
 			if len(r.Programs) > 0 {
@@ -628,4 +654,33 @@ func truncate(s string, n int) string {
 		return s[:n] + "…"
 	}
 	return s
+}
+
+// crossProgramName finds two configured programs and a counter (or stack) name
+// that is listed for the first and not for the second.
+func crossProgramName(t *simrt.Tape, cfg *refcfg.Config) (a, b *refcfg.Program, name string, isStack bool) {
+	if len(cfg.GoVersion) == 0 || len(cfg.GOOS) == 0 || len(cfg.GOARCH) == 0 {
+		return nil, nil, "", false
+	}
+	for i := range cfg.Programs {
+		for j := range cfg.Programs {
+			pa, pb := &cfg.Programs[i], &cfg.Programs[j]
+			if i == j || len(pa.Versions) == 0 || len(pb.Versions) == 0 {
+				continue
+			}
+			for _, c := range pa.Counters {
+				for _, e := range refcfg.Expand(c.Name) {
+					if _, ok := cfg.CounterRate(pb.Name, e); !ok {
+						return pa, pb, e, false
+					}
+				}
+			}
+			for _, st := range pa.Stacks {
+				if _, ok := cfg.StackRate(pb.Name, st.Name); !ok {
+					return pa, pb, st.Name, true
+				}
+			}
+		}
+	}
+	return nil, nil, "", false
 }
